@@ -28,7 +28,7 @@ from yowsup.layers.coder.decoder import ReadDecoder
 from yowsup.layers.coder.tokendictionary import TokenDictionary
 from yowsup.layers.axolotl import AxolotlSendLayer, AxolotlControlLayer, AxolotlReceivelayer
 from yowsup.layers.axolotl.props import PROP_IDENTITY_AUTOTRUST
-from yowsup.layers.interface import YowInterfaceLayer
+from yowsup.layers.interface import YowInterfaceLayer, ProtocolEntityCallback
 from yowsup.layers.protocol_iq import YowIqProtocolLayer
 from yowsup.stacks import YowStack, YowStackBuilder
 from yowsup.profile.profile import YowProfile
@@ -56,16 +56,21 @@ def install():
 
 
 class App(YowInterfaceLayer):
-    """application: records every entity, acknowledges messages and receipts like the demo clients do"""
+    """application written the way the demo clients are: entity callbacks registered with the interface layer (whose own receive()
+    dispatches to them), messages and receipts acknowledged; everything without a callback arrives through toUpper"""
 
-    def receive(self, e):
-        c = self.getProp("client")
-        c.app_got.append(e)
-        tag = e.getTag()
-        if tag == "message":
-            self.toLower(e.ack())
-        elif tag == "receipt":
-            self.toLower(e.ack())
+    @ProtocolEntityCallback("message")
+    def on_message(self, e):
+        self.getProp("client").app_got.append(e)
+        self.toLower(e.ack())
+
+    @ProtocolEntityCallback("receipt")
+    def on_receipt(self, e):
+        self.getProp("client").app_got.append(e)
+        self.toLower(e.ack())
+
+    def toUpper(self, e):
+        self.getProp("client").app_got.append(e)
 
 
 class FakeDispatcher(YowConnectionDispatcher):
